@@ -116,6 +116,8 @@ def gen_pattern(rng, r, c, min_entries=0):
 
 
 def csr_args(rng, val, r=None, c=None, min_entries=0, variant=0):
+    if r is None and c is None and rng.random() < 0.4:
+        r, c = rng.choice([(1, 6), (6, 1), (1, 1), (2, 7), (7, 2), (1, 3), (3, 1)])   # tall / wide / 1xN / Nx1
     r = rng.choice([1, 2, 3, 4, 5, 7]) if r is None else r
     c = rng.choice([1, 2, 3, 4, 6]) if c is None else c
     rows = gen_pattern(rng, r, c, min_entries)
@@ -144,7 +146,7 @@ def kind_args(rng, kind, val, binary, same_dt=True, same_it=True):
     if kind == "dm":
         if binary and rng.random() < 0.15:
             return "0 0 0"
-        r, c = rng.choice([1, 2, 3, 4]), rng.choice([1, 2, 3, 5])
+        r, c = rng.choice([(1, 1), (1, 4), (4, 1), (1, 7), (6, 1), (2, 5), (5, 2), (3, 3), (2, 3), (4, 3), (3, 7)])
         return "%d %d %s" % (r, c, fl([val(rng) for _ in range(r * c)]))
     if kind == "csr":
         if binary:
@@ -395,6 +397,62 @@ def gen_dfio(rng):
     return "dfio %s %s" % (hexname(blob()), hexname(blob()))
 
 
+def shape_corpus():
+    """deterministic text-mode cases on rectangular shapes: tall, wide, 1xN, Nx1, 1x1, square; all values distinct
+    (a wrong row stride or a transposed loop changes the file), every data/index width"""
+    out = []
+    shapes = [(1, 1), (1, 5), (5, 1), (2, 7), (7, 2), (3, 4), (4, 3), (3, 3), (1, 2), (2, 1), (6, 5)]
+    for k, (r, c) in enumerate(shapes):
+        dt, it = [(8, 8), (4, 4), (8, 4), (4, 8)][k % 4]
+        vals = [Fraction(8 * (i * c + j) + 1, 8) for i in range(r) for j in range(c)]
+        out.append("txt dm mtx %d %d %d %d %s" % (dt, it, r, c, fl(vals)))
+        # CSR: full, one entry per row on a moving diagonal, first/last row empty, entry-free (allocated)
+        pats = [[list(range(c)) for _ in range(r)], [[(i * 3 + 1) % c] for i in range(r)],
+                [([] if i in (0, r - 1) else [j for j in range(c) if (i + j) % 2 == 0]) for i in range(r)]]
+        for rows in pats:
+            rp, ci = [0], []
+            for cols in rows:
+                ci += cols
+                rp.append(len(ci))
+            v = [Fraction(4 * q + 3, 4) for q in range(len(ci))]
+            variant = 1
+            out.append("txt csr mtx %d %d %d %d %d %s %s %s" % (dt, it, r, c, variant, nl(rp), nl(ci), fl(v)))
+            if ci:
+                out.append("kind csr 1 %d %d 8 8 %d %d 0 %s %s %s" % (dt, it, r, c, nl(rp), nl(ci), fl(v)))
+        out.append("txt dv mtx %d %d %s" % (dt, it, fl(vals)))
+        out.append("txt dv exp %d %d %s" % (dt, it, fl(vals)))
+        if len(vals) % 2 == 0:
+            out.append("txt dvb mtx %d %d %s" % (dt, it, fl(vals)))
+            out.append("txt dvb exp %d %d %s" % (dt, it, fl(vals)))
+        idx = list(range(0, r * c, 2))
+        out.append("txt sv mtx %d %d %d 1 %s %s" % (dt, it, r * c + 3, nl(idx), fl(vals[:len(idx)])))
+    return out
+
+
+def gen_cpmiss(rng):
+    """restore an identifier that is NOT registered but nearly collides with a registered one"""
+    n = rng.choice([1, 2, 3, 4])
+    base = "".join(rng.choice("abcXYZ019_-. #") for _ in range(rng.choice([1, 2, 3, 8, 9])))
+    names = [base]
+    while len(names) < n + 1:
+        cand = mutate_name(rng, rng.choice(names))
+        if cand not in names and cand != "":
+            names.append(cand)
+    rng.shuffle(names)
+    missing, names = names[0], names[1:]
+    parts = ["%s %s" % (hexname(nm), cp_object(i, rng.choice(["dv", "csr"]))) for i, nm in enumerate(names)]
+    return "cpmiss %s %d %s" % (hexname(missing), n, " ".join(parts))
+
+
+def gen_cpdup(rng):
+    """a checkpoint in which one identifier is registered twice: add_object must reject it"""
+    n = rng.choice([2, 3, 4])
+    fam = rng.choice(NAME_FAMILIES)
+    names = [rng.choice(fam) for _ in range(n)]
+    names[rng.randrange(1, n)] = names[0]
+    return cpx_case(names, None, [0], indiv=0)
+
+
 def gen_cases(rng, count):
     cases = []
     for _ in range(count):
@@ -409,6 +467,10 @@ def gen_cases(rng, count):
             cases.append(gen_txt(rng, False))
         elif k < 0.82:
             cases.append(gen_dfio(rng))
+        elif k < 0.84:
+            cases.append(gen_cpmiss(rng))
+        elif k < 0.85:
+            cases.append(gen_cpdup(rng))
         elif k < 0.87:
             cases.append(gen_cp(rng))
         else:
@@ -431,8 +493,10 @@ CORPUS = [
     "raw 3 3 4 8 8 4 3 1 2 3 1 1/2 1 1 3/4 1 1 7",
     "cp 2 b dv 2 1/1 2/1 a csr 2 2 0 3 0 1 1 1 1 1 5/1 2 1 0",
     "cp 1 a dv 0 1 0",
+    "cpmiss 55 1 75 dv 1 1/1", "cpmiss 61 2 6162 dv 1 1/1 41 dv 1 2/1", "cpmiss 6162 1 61 dv 1 1/1",
+    "cpmiss - 1 61 dv 1 1/1", "cpx 0 2 61 dv 1 1/1 61 dv 1 2/1 1 0", "cpx 0 3 61 dv 1 1/1 41 dv 1 2/1 61 dv 1 3/1 1 1",
     "dfio - -", "dfio 00 -", "dfio - ff", "dfio 0102030405060708 464541543343444600",
-] + cpx_corpus() + width_corpus()
+] + cpx_corpus() + width_corpus() + shape_corpus()
 
 # Inputs on which the property FAILS on the current tree (genuine FEAT defects, see KNOWN_FINDINGS.json and
 # DESIGN.md section 8). They are executed and judged like every other input; each is matched against an *open*
@@ -732,6 +796,18 @@ def oracle(case, out):
             if op == "txt" and eq != 1:
                 return "operator== reports the read-back %s as different" % kind
             return None
+        if op == "cpmiss":
+            a.tok()
+            n = a.nat()
+            names = []
+            for _ in range(n):
+                nm = a.tok()
+                names.append(nm)
+                expected_layout(a.tok(), a)
+            if len(set(names)) != n:
+                return None if out.startswith("ABORT") else "duplicate identifier was not rejected"
+            return None if out.startswith("ABORT") else \
+                "restoring an identifier that was never registered was not reported: " + out[:80]
         if op == "dfio":
             sh, bf = (bytes.fromhex("" if x == "-" else x) for x in (a.tok(), a.tok()))
             if is_abnormal(out):
@@ -808,6 +884,8 @@ def nontrivial(case):
         return int(t[2]) >= 2
     if op == "dfio":
         return t[1] != "-" or t[2] != "-"
+    if op == "cpmiss":
+        return True
     if op == "raw":
         a = Tk(case)
         a.tok(), a.nat(), a.nat()
@@ -871,6 +949,10 @@ def describe(case):
             keys.append("length-0")
     elif t[0] in ("txt", "txtr"):
         keys.append("text:%s/%s dt%s" % (t[1], t[2], t[3]))
+        if t[1] in ("dm", "csr", "bcsr"):
+            r, c = int(t[5]), int(t[6])
+            keys.append("shape:" + ("empty" if r * c == 0 else "1x1" if (r, c) == (1, 1) else "1xN" if r == 1 else
+                                    "Nx1" if c == 1 else "square" if r == c else "tall" if r > c else "wide"))
         if t[1] == "csr":
             a = Tk(" ".join(t[5:]))
             r = a.nat()
